@@ -344,15 +344,13 @@ theorem geomSends_rec (r : Nat) (dr : DonorR α) :
           exact ⟨t', List.mem_cons_of_mem _ ht', rest⟩
         split at h
         · split at h
+          · rename_i c wts hex
+            obtain ⟨l', hl', rfl⟩ := map_eq_ok.mp h
+            rcases List.mem_cons.mp hx with rfl | hx'
+            · obtain ⟨hc, n, hn, hb⟩ := enclosingInList_ok hex
+              exact ⟨t, List.mem_cons_self, rfl, rfl, rfl, hc, n, wts, hn, hb, rfl⟩
+            · exact lift (ih ps bs l' hl' x hx')
           · cases h
-          · split at h
-            · rename_i c wts hex
-              obtain ⟨l', hl', rfl⟩ := map_eq_ok.mp h
-              rcases List.mem_cons.mp hx with rfl | hx'
-              · obtain ⟨hc, n, hn, hb⟩ := enclosingInList_ok hex
-                exact ⟨t, List.mem_cons_self, rfl, rfl, rfl, hc, n, wts, hn, hb, rfl⟩
-              · exact lift (ih ps bs l' hl' x hx')
-            · cases h
         · exact lift (ih ps bs l h x hx)
 
 theorem tree_slots_eq (twod : Bool) (b : B4 α) :
